@@ -16,7 +16,9 @@ Case (plain data):
             of the same schema is constructed) | ["load", n, value] | ["assign", value] | ["reset"]
             load n: the document follows the first n keys of `path`; n = len(path) gives the field
             `value`, a smaller n ends in an empty map (n = 0: the empty document)
-  style   : "attr" (sub-schemas without setting are created by Schema.__getattr__) | "explicit"
+  rootkey : optional key= of the root schema's constructor (starts the error paths, never the names)
+  sensitive : optional sensitive= flag given to every field (None: the class's default)
+  style   : "keyed" (every sub-schema is an assigned Schema(key="pre<key>", env=...)) | "attr" (sub-schemas without setting are created by Schema.__getattr__) | "explicit"
             (every sub-schema is an assigned Schema(env=...)) | "item" (the target is added with
             schema["a.b.f"] = field when no schema on the way has a setting)
 """
@@ -147,6 +149,8 @@ def accept(kind, v):
         return (True, ("digest", v)) if isinstance(v, str) else (False, None)
     if k == "raise":
         return (True, v) if isinstance(v, str) and v != "boom" else (False, None)
+    if k == "secure":
+        return (True, v) if isinstance(v, str) else (False, None)
     raise Broken("kind %r" % (kind,))
 
 
@@ -181,6 +185,8 @@ KIND_DATA = {
     "dict": (["dict"], {"a": 1}, "x", "x", {"b": 5}, {"c": 9}, {"d": 6}, 7),
     "chal1": (["chal", True], "pw", "envpw", "envpw", "l1", "a2", "l3", 5),
     "chal0": (["chal", False], None, "envpw", "envpw", "l1", "a2", "l3", 5),
+    # SecureField(method="xor"): sensitive by default, a plain string in memory
+    "secure": (["secure"], "dflt", "envs", "envs", "l1", "a2", "l3", 5),
 }
 
 
@@ -188,7 +194,7 @@ KIND_DATA = {
 EXC_NAMES = ["ValueError", "TypeError", "KeyError", "ZeroDivisionError", "OSError", "Custom"]
 EXC_ERRK = {"ValueError": "EValue", "TypeError": "EType", "KeyError": "EKey", "ZeroDivisionError": "EOtherExn",
             "OSError": "EOS", "Custom": "EOtherExn"}
-BASE_KINDS = list(KIND_DATA)
+BASE_KINDS = [k for k in KIND_DATA if k != "secure"]
 for _how in ("validator", "subclass"):
     for _exc in EXC_NAMES:
         KIND_DATA["raise-%s-%s" % (_how, _exc)] = (["raise", _how, _exc], "dflt", "fine", "boom", "l1", "a2", "l3", "boom")
@@ -227,7 +233,7 @@ def decoys(path, exp, value):
     return {c: value for c in cands if c}
 
 
-VALID_B = {"int": "42", "str": "env2", "bool": "off", "list": "y", "dict": "y", "chal1": "envpw2", "chal0": "envpw2"}
+VALID_B = {"secure": "envs2", "int": "42", "str": "env2", "bool": "off", "list": "y", "dict": "y", "chal1": "envpw2", "chal0": "envpw2"}
 
 
 def make_environ(tree, path, kname, envstate, with_decoys=True, valid=None, invalid=None):
@@ -339,6 +345,30 @@ def generate(rng, tier):
                     tree, path = path_tree(r, [m] * (depth - 1), f, siblings=(depth == 1))
                     cases.append(make_case(tree, path, kname, st, std_ops(kname, depth), styles[n % 3], "raise%d" % depth))
                     n += 1
+    # schemas constructed with a key= of their own (the root keeps it, a nested one is renamed when attached):
+    # the key plays no part in the names; it only starts the error paths
+    for depth in (1, 2, 3):
+        for r in SETTINGS_ROOT:
+            for m in (SETTINGS_MID if depth > 1 else [None]):
+                for f in (None, True):
+                    for st in ("valid", "invalid"):
+                        tree, path = path_tree(r, [None] * (depth - 2) + [m] if depth > 1 else [], f, siblings=(depth == 1))
+                        c = make_case(tree, path, "int", st, std_ops("int", depth)[:4], "keyed", "keyed%d" % depth)
+                        c["rootkey"] = "myapp"
+                        cases.append(c)
+    # the sensitive flag plays no part in the binding: every class, bound every way
+    for depth in (1, 2, 3):
+        for r, m, f in [(True, None, None), ("APP", None, None), (None, True, None), (False, "p1", None),
+                        (None, None, True), (None, None, "FV")]:
+            if depth == 1 and m is not None:
+                continue
+            for kname in BASE_KINDS + ["secure", "raise-subclass-KeyError"]:
+                for st in ("valid", "unset"):
+                    tree, path = path_tree(r, [m] * (depth - 1), f, siblings=(depth == 1))
+                    c = make_case(tree, path, kname, st, std_ops(kname, depth)[:5], styles[n % 3], "sensitive%d" % depth)
+                    c["sensitive"] = None if (kname == "secure" and n % 2) else True
+                    cases.append(c)
+                    n += 1
     # the environment changes between constructions of configurations of one schema
     for depth in (1, 2, 3):
         for r, m, f in [(True, None, None), ("APP", None, None), (None, None, "FV"), (False, True, True)]:
@@ -401,7 +431,7 @@ def random_case(rng):
     kids.insert(rng.randrange(len(kids) + 1), node)
     tree = ["S", root_env, kids]
     path = keys + [fkey]
-    kname = rng.choice(["int", "int", "int", "str", "bool", "list", "dict", "chal1", "chal0", rng.choice(RAISE_KINDS)])
+    kname = rng.choice(["int", "int", "int", "str", "bool", "list", "dict", "chal1", "chal0", "secure", rng.choice(RAISE_KINDS)])
     kind, default, valid, invalid, v1, v2, v3, bad = KIND_DATA[kname]
     if kname == "int":
         valid = rng.choice(["7", " 42 ", "+5", "1_0", "100", "0", "-0"])
@@ -440,6 +470,12 @@ def random_case(rng):
             c["environ"][exp] = valid
         elif st == "invalid":
             c["environ"][exp] = invalid
+    if rng.random() < 0.25:
+        c["sensitive"] = rng.choice([True, True, False])
+    if rng.random() < 0.2:
+        c["rootkey"] = rng.choice(["myapp", "Root_1"])
+        if rng.random() < 0.7:
+            c["style"] = "keyed"
     wd = rng.random() < 0.7
     for op in c["ops"]:
         if op[0] == "build" and len(op) == 3:
@@ -476,6 +512,8 @@ def g_kind(kind):
         return "(KChal %s)" % ("true" if kind[1] else "false")
     if k == "raise":
         return "(KRaise %s)" % EXC_ERRK[kind[2]]
+    if k == "secure":
+        return "(KStr None)"
     return {"bool": "KBool", "list": "KList", "dict": "KDict"}[k]
 
 
@@ -521,7 +559,8 @@ def gcase(c):
             return "(ONested %s)" % arg
         raise Broken("bad op %r" % (op,))
     environ = g_environ(c["environ"])
-    return "(%s, %s, %s, %s, %s, %s)" % (g_tree(c["tree"]), g_list(c["path"], g_str), g_kind(c["kind"]), gd,
+    return "(%s, %s, %s, %s, %s, %s, %s)" % (g_tree(c["tree"]), g_str(c.get("rootkey") or ""), g_list(c["path"], g_str),
+                                             g_kind(c["kind"]), gd,
                                          environ, g_list(c["ops"], gop))
 
 
@@ -556,18 +595,24 @@ def _make_field(case, env):
     from cincoconfig import IntField, StringField, BoolField, ListField, DictField, ChallengeField
     kind, d = case["kind"], case["default"]
     k = kind[0]
+    kw = {"env": env}
+    if case.get("sensitive") is not None:      # None: the class's own default
+        kw["sensitive"] = case["sensitive"]
     if k == "int":
-        return IntField(min=kind[1], max=kind[2], default=d, env=env)
+        return IntField(min=kind[1], max=kind[2], default=d, **kw)
     if k == "str":
-        return StringField(max_len=kind[1], default=d, env=env)
+        return StringField(max_len=kind[1], default=d, **kw)
     if k == "bool":
-        return BoolField(default=d, env=env)
+        return BoolField(default=d, **kw)
     if k == "list":
-        return ListField(default=lambda: list(d), env=env)
+        return ListField(default=lambda: list(d), **kw)
     if k == "dict":
-        return DictField(default=lambda: dict(d), env=env)
+        return DictField(default=lambda: dict(d), **kw)
     if k == "chal":
-        return ChallengeField("sha256", default=d, env=env)
+        return ChallengeField("sha256", default=d, **kw)
+    if k == "secure":
+        from cincoconfig import SecureField
+        return SecureField(method="xor", default=d, **kw)
     if k == "raise":
         from cincoconfig.core import Field
         exc = _CustomError if kind[2] == "Custom" else getattr(__import__("builtins"), kind[2])
@@ -577,7 +622,7 @@ def _make_field(case, env):
                 raise exc("boom")
             return value
         if kind[1] == "validator":
-            return StringField(default=d, env=env, validator=chk)
+            return StringField(default=d, validator=chk, **kw)
 
         class TextField(Field):
             storage_type = str
@@ -586,14 +631,16 @@ def _make_field(case, env):
                 if not isinstance(value, str):
                     raise ValueError("not a string")
                 return chk(cfg, value)
-        return TextField(default=d, env=env)
+        return TextField(default=d, **kw)
     raise Broken("kind")
 
 
 def _build_schema(case):
     from cincoconfig import Schema, IntField
     tree, path, style = case["tree"], case["path"], case["style"]
-    root = Schema(env=tree[1])
+    keyed = style == "keyed"          # every Schema is constructed with a key= of its own
+    root = Schema(key=case.get("rootkey") or None, env=tree[1])
+    skw = {} if case.get("sensitive") is None else {"sensitive": case["sensitive"]}
     via_item = style == "item" and len(path) > 1 and all(e is None for e in _chain_envs(tree, path))
     target = _make_field(case, [f for p, _, f in leaves(tree) if p == path][0])
     # when the path is the first entry at every level, schema["a.b.f"] = field creates the whole chain
@@ -616,13 +663,13 @@ def _build_schema(case):
                         continue
                     fld = target
                 else:
-                    fld = IntField(default=0, env=child[1])
+                    fld = IntField(default=0, env=child[1], **skw)
                 setattr(schema, key, fld)
             else:
                 if child[1] is None and style in ("attr", "item"):
                     sub = getattr(schema, key)          # Schema.__getattr__ creates (or finds) it
                 else:
-                    sub = Schema(env=child[1])
+                    sub = Schema(key="pre" + key, env=child[1]) if keyed else Schema(env=child[1])
                     setattr(schema, key, sub)            # attached before its fields: top-down
                 fill(sub, child, here)
     fill(root, tree, [])
@@ -781,6 +828,7 @@ def oracle(case, obs):
     exp = bound(exp_names[".".join(path)])
     kind = case["kind"]
     depth = len(path)
+    epath = ".".join(([case["rootkey"]] if case.get("rootkey") else []) + path)
     environ = case["environ"]
     envv = environ.get(exp) if exp else None
     active = bool(envv)
@@ -807,9 +855,9 @@ def oracle(case, obs):
             if b == "fail":
                 if out == "ok":
                     bad.append("build: op %d: variable %s=%r is invalid but construction succeeded" % (i, exp, envv))
-                elif out != ("err", ("validation", ".".join(path))):
+                elif out != ("err", ("validation", epath)):
                     bad.append("build: op %d: invalid variable: expected a validation error naming %s, got %r"
-                               % (i, ".".join(path), out))
+                               % (i, epath, out))
                 else:
                     alive = False
                     continue
@@ -920,6 +968,10 @@ def tags(case, obs):
     t.add("bound" if exp else "unbound")
     t.add("env:" + case.get("envstate", "?") + ("" if exp else "(unbound)"))
     t.add("style:" + case["style"])
+    if case.get("rootkey"):
+        t.add("root schema has key=")
+    if case.get("sensitive") is not None or case["kind"][0] == "secure":
+        t.add("sensitive:%s" % case.get("sensitive"))
     if in_f20(case):
         t.add("region:F20")
     if isinstance(obs, tuple) and len(obs) == 2 and isinstance(obs[1], list):
